@@ -267,20 +267,14 @@ var specSpin = pbt.Register(&pbt.Spec[PCase]{
 	Gen: func(t *rapid.T) PCase {
 		c := PCase{Stable: rapid.SampledFrom([]int{0, 1, 1, 1, 2, 5, 40}).Draw(t, "stable"), Iters: rapid.SampledFrom([]int{20000, 100000, 300000}).Draw(t, "iters"),
 			Procs: rapid.SampledFrom([]int{2, 4, 8, 16}).Draw(t, "procs")}
-		switch rapid.IntRange(0, 3).Draw(t, "template") {
+		switch rapid.IntRange(0, 4).Draw(t, "template") {
 		case 0: // one key comes and goes while a Range looks at a map that holds one or two other keys
 			c.Roles = []string{"los0", "lad0", "range"}
 			c.Stable = rapid.SampledFrom([]int{1, 1, 2}).Draw(t, "few")
 			c.Iters = 300000
 		case 1:
 			c.Roles = []string{"los0", "los0", "lad0", "lad0", "churn"}
-			if rapid.IntRange(0, 2).Draw(t, "readers") == 1 {
-				// readers of the shared keys while those keys come and go and other (private) keys are created all the time:
-				// a reader must never see a value that was stored under ANOTHER key
-				c.Roles = []string{"newkeys", "newkeys", "load", "load", "load", "load", "load", "load"}
-				c.Stable = rapid.SampledFrom([]int{40, 20000, 40000}).Draw(t, "st")
-				c.Iters = 100000
-			}
+
 			if rapid.Bool().Draw(t, "big") {
 				// a big map (the read map holds more than 2^14 entries) whose dirty map is rebuilt again and again (every
 				// Range promotes) while several goroutines store keys that are new to it
@@ -288,6 +282,12 @@ var specSpin = pbt.Register(&pbt.Spec[PCase]{
 				c.Stable = rapid.SampledFrom([]int{20000, 40000}).Draw(t, "bigstable")
 				c.Iters = 20000
 			}
+		case 4:
+			// never-used private keys whose current one other goroutines load while it comes and goes: a reader must never
+			// see a value that was stored under ANOTHER key
+			c.Roles = []string{"newkeys", "newkeys", "load", "load", "load", "load", "load", "load"}
+			c.Stable = rapid.SampledFrom([]int{40, 20000, 40000}).Draw(t, "st")
+			c.Iters = 100000
 		default:
 			n := rapid.IntRange(2, 6).Draw(t, "n")
 			for i := 0; i < n; i++ {
